@@ -372,7 +372,7 @@ structure Interp where
   cfg : GenCfg := {}
   node : Option Node := none
   nAccts : Nat := 0
-  govs : List (Nat × Msg) := []
+  govs : List (Nat × List Msg) := []
   halted : Bool := false
   commits : Nat := 0
 
@@ -465,8 +465,8 @@ def stepToks (wall : Nat) (it : Interp) (line : String) (toks : List String) : I
     | some n => (it, digest n.committed it.nAccts)
     | none => ({ it with halted := true }, [s!"! bad-line {line}"])
   | "GOVEXEC" :: k :: rest =>
-    match k.toNat?, pMsg? 64 rest with
-    | some k, some (m, []) => ({ it with govs := it.govs ++ [(k, m)] }, [])
+    match k.toNat?, pMsgs? rest with
+    | some k, some ms => ({ it with govs := it.govs ++ [(k, ms)] }, [])
     | _, _ => ({ it with halted := true }, [s!"! bad-line {line}"])
   | ["END"] =>
     match it.node with
